@@ -15,6 +15,9 @@ submissions racing `Stop`), task durations and interleavings of submitters, work
 * `c19_parallelism`         from an idle pool, as many mutually waiting tasks as a fresh pool runs together
                             (maxC − 1 on workers plus one on the dispatcher) run together again
 * `c19_parallelism_new`     the same for `taskpool.New(n, q)` by name: `n - 2` on workers (+1 on the dispatcher)
+* `c19_call_accepts`, `c19_call_ends`, `c19_call_outside_bound`   `TaskPool.Call`: never refuses (also after `Stop`), never
+                            touches counter / queue / workers / dispatcher, is not subject to the bound; a called task can
+                            always end and is `done` then; called tasks take part in conservation, exactly-once and completion
 * `c19_panic_contained`     a panicking task leaves worker/dispatcher exactly where a returning one does
 * `c19_no_stuck`            with or without `Stop`: while a task is owed a run or running some internal step or task
                             end is enabled (no deadlock, no stranded task)
@@ -99,23 +102,25 @@ theorem c19_conservation (g : Cfg) (as : List Act) :
 theorem c19_at_most_once (g : Cfg) (as : List Act) :
     let s := run g init as
     s.handed.Nodup → (allTasks s).Nodup ∧ s.done.Nodup ∧
-      (∀ t ∈ s.done, t ∉ s.queue ∧ t ∉ runningTasks s ∧ t ∉ pendingTasks s) := by
+      (∀ t ∈ s.done, t ∉ s.queue ∧ t ∉ runningTasks s ∧ t ∉ pendingTasks s ∧ t ∉ s.callers) := by
   intro s hn
   have hp := c19_conservation g as
   have hnd : (allTasks s).Nodup := hp.nodup_iff.mpr hn
   refine ⟨hnd, ?_, ?_⟩
   · unfold allTasks at hnd
-    have := (List.nodup_append.mp hnd).1
+    have h0 := (List.nodup_append.mp hnd).1
+    have := (List.nodup_append.mp h0).1
     exact (List.nodup_append.mp this).2.1
   · intro t ht
     unfold allTasks at hnd
     -- t ∈ done; every other component is disjoint from done
-    have h1 := List.nodup_append.mp hnd          -- (… ++ done) ++ dropped
+    have h00 := List.nodup_append.mp hnd         -- (… ++ dropped) ++ callers
+    have h1 := List.nodup_append.mp h00.1        -- (… ++ done) ++ dropped
     have h2 := List.nodup_append.mp h1.1         -- (… ++ dTask) ++ done
     have hdisj := h2.2.2
     have hnot : ∀ x, x ∈ s.goers.flatMap gTask ++ s.queue ++ s.workers.flatMap wTask ++ dTask s.disp → x ≠ t :=
       fun x hx => hdisj x hx t ht
-    refine ⟨?_, ?_, ?_⟩
+    refine ⟨?_, ?_, ?_, ?_⟩
     · intro hq; exact hnot t (by simp [hq]) rfl
     · intro hr
       simp only [runningTasks, List.mem_append] at hr
@@ -132,15 +137,65 @@ theorem c19_at_most_once (g : Cfg) (as : List Act) :
       · have : t ∈ dTask s.disp := by
           revert hpd; cases s.disp <;> simp [dTask, dPend]
         exact hnot t (by simp only [List.mem_append]; exact .inr this) rfl
+    · intro hc
+      exact h00.2.2 t (by simp [ht]) t (List.mem_flatMap.mpr ⟨t, hc, by simp [cTask]⟩) rfl
 
 /-- A panicking task is contained: the worker (resp. the dispatcher) is left exactly where a returning
     task leaves it — `caller`'s recover — only the panic count differs. -/
 theorem c19_panic_contained (g : Cfg) (s : St) (i : Nat) :
     step g s (.wFinish i true) = (step g s (.wFinish i false)).map (fun s' => { s' with panics := s'.panics + 1 }) ∧
-    step g s (.dFinish true) = (step g s (.dFinish false)).map (fun s' => { s' with panics := s'.panics + 1 }) := by
-  constructor
+    step g s (.dFinish true) = (step g s (.dFinish false)).map (fun s' => { s' with panics := s'.panics + 1 }) ∧
+    step g s (.cFinish i true) = (step g s (.cFinish i false)).map (fun s' => { s' with panics := s'.panics + 1 }) := by
+  refine ⟨?_, ?_, ?_⟩
   · simp only [step]; split <;> simp
   · simp only [step]; split <;> simp
+  · simp only [step]; split <;> simp
+
+/-! ### `TaskPool.Call` (model + theorems; the correspondence run does not exercise `Call` yet) -/
+
+/-- `Call` never refuses and never touches the pool: in **every** state (full queue, all workers busy, after `Stop`)
+    the task is entered at once on the caller's goroutine; the counter, the workers, the queue, the `Go` calls in flight
+    and the dispatcher are left exactly as they were. -/
+theorem c19_call_accepts (g : Cfg) (s : St) (t : Nat) :
+    ∃ s', step g s (.call t) = some s' ∧ s'.callers = s.callers ++ [t] ∧ s'.handed = s.handed ++ [t] ∧
+      s'.conc = s.conc ∧ s'.workers = s.workers ∧ s'.queue = s.queue ∧ s'.goers = s.goers ∧ s'.disp = s.disp ∧
+      s'.done = s.done ∧ s'.dropped = s.dropped :=
+  ⟨_, rfl, rfl, rfl, rfl, rfl, rfl, rfl, rfl, rfl, rfl⟩
+
+/-- a task inside `Call` can always end, and is `done` then (returning or panicking into `caller`'s recover) -/
+theorem c19_call_ends (g : Cfg) (s : St) (i t : Nat) (p : Bool) (h : s.callers[i]? = some t) :
+    ∃ s', step g s (.cFinish i p) = some s' ∧ s'.done = s.done ++ [t] ∧ s'.callers = s.callers.eraseIdx i ∧
+      s'.conc = s.conc ∧ s'.workers = s.workers ∧ s'.queue = s.queue ∧ s'.disp = s.disp := by
+  simp [step, h]
+
+theorem run_calls (g : Cfg) : ∀ (ts : List Nat) (s : St),
+    (run g s (ts.map Act.call)).callers = s.callers ++ ts ∧
+    runningTasks (run g s (ts.map Act.call)) = runningTasks s ∧ (run g s (ts.map Act.call)).conc = s.conc := by
+  intro ts
+  induction ts with
+  | nil => intro s; simp [run]
+  | cons t ts ih =>
+    intro s
+    simp only [List.map_cons, run, step]
+    obtain ⟨h1, h2, h3⟩ := ih { s with callers := s.callers ++ [t], handed := s.handed ++ [t] }
+    exact ⟨by rw [h1]; simp, by rw [h2]; rfl, by rw [h3]⟩
+
+/-- `Call` is **not** subject to the bound: from any state, any number of tasks handed over through `Call` are inside
+    `f()` at the same time, next to whatever the pool's own goroutines run; the bound of `c19_bound` counts
+    `runningTasks` (workers and dispatcher) only. -/
+theorem c19_call_outside_bound (g : Cfg) (as : List Act) (ts : List Nat) :
+    let s := run g (run g init as) (ts.map Act.call)
+    s.callers = (run g init as).callers ++ ts ∧ runningTasks s = runningTasks (run g init as) ∧
+      s.conc = (run g init as).conc :=
+  run_calls g ts (run g init as)
+
+/-- `Call` after `Stop`, next to a task on the dispatcher, one of the called tasks panicking: everything runs once -/
+example :
+    let g : Cfg := { maxC := 0, cap := 1 }
+    let s := run g init [.go 1, .goUndo 0, .goEnq 0, .dRecv, .dFork, .dUndo, .stopAdd, .stopClose, .call 2, .call 3,
+                         .cFinish 0 true, .dFinish false, .cFinish 0 false]
+    s.done = [2, 1, 3] ∧ s.callers = [] ∧ s.panics = 1 ∧ s.handed = [1, 2, 3] ∧ s.conc = 0 := by
+  decide
 
 /-! ### parallelism is available again -/
 
@@ -283,6 +338,8 @@ theorem sinv_step (g : Cfg) (s s' : St) (a : Act) (h : SInv g s) (hs : step g s 
     · cases hs; exact ⟨by simp, h2, h3, h4⟩
     · rename_i t hd; cases hs; exact ⟨fun _ => h1 (by simp [hd]), h2, h3, h4⟩
     · cases hs
+  | call t => simp only [step] at hs; cases hs; exact ⟨h1, h2, h3, h4⟩
+  | cFinish i p => simp only [step] at hs; split at hs <;> first | (cases hs; exact ⟨h1, h2, h3, h4⟩) | cases hs
   | stopAdd =>
     simp only [step] at hs
     split at hs
@@ -308,7 +365,7 @@ theorem sinv_run (g : Cfg) (as : List Act) : ∀ s, SInv g s → SInv g (run g s
 
 /-- the steps that are not the harness's / the clients': everything but `go` and `Stop` -/
 def Act.internal : Act → Bool
-  | .go _ | .stopAdd | .stopClose => false
+  | .go _ | .call _ | .stopAdd | .stopClose => false
   | _ => true
 
 /-- Tasks are dropped only after `Stop` closed the channel. -/
@@ -346,8 +403,21 @@ theorem worker_running_exists : ∀ (ws : List WPh), ws.flatMap wTask ≠ [] →
       exact ⟨i + 1, t, by simpa using h⟩
 
 theorem no_stuck (g : Cfg) (s : St) (hS : SInv g s)
-    (hwork : owedTasks s ≠ [] ∨ runningTasks s ≠ []) :
+    (hwork : owedTasks s ≠ [] ∨ runningTasks s ≠ [] ∨ s.callers ≠ []) :
     ∃ a, Act.internal a = true ∧ (step g s a).isSome = true := by
+  -- a task inside `Call` can end
+  have hcall : s.callers ≠ [] → ∃ a, Act.internal a = true ∧ (step g s a).isSome = true := by
+    intro h
+    cases hcs : s.callers with
+    | nil => exact absurd hcs h
+    | cons x xs => exact ⟨.cFinish 0 false, rfl, by simp [step, hcs]⟩
+  by_cases hcs : s.callers ≠ []
+  · exact hcall hcs
+  have hwork : owedTasks s ≠ [] ∨ runningTasks s ≠ [] := by
+    rcases hwork with h | h | h
+    · exact .inl h
+    · exact .inr h
+    · exact absurd h hcs
   -- a Go call in flight can always move: decrement, then send (room / rendezvous) or, after the close, give up
   have hgo : ∀ (x : GoPh) (xs : List GoPh), s.goers = x :: xs → (s.queue = [] ∧ s.disp = .idle) ∨ s.closed = true →
       ∃ a, Act.internal a = true ∧ (step g s a).isSome = true := by
@@ -402,7 +472,7 @@ theorem no_stuck (g : Cfg) (s : St) (hS : SInv g s)
     owed a run (in a `Go` call, in the dispatcher's hands, in the queue while the dispatcher goroutine lives) or is
     running, an internal step or a task end is enabled: the pool cannot sit on a task. -/
 theorem c19_no_stuck (g : Cfg) (as : List Act) :
-    (owedTasks (run g init as) ≠ [] ∨ runningTasks (run g init as) ≠ []) →
+    (owedTasks (run g init as) ≠ [] ∨ runningTasks (run g init as) ≠ [] ∨ (run g init as).callers ≠ []) →
     ∃ a, Act.internal a = true ∧ (step g (run g init as) a).isSome = true :=
   no_stuck g _ (sinv_run g as init (sinv_init g))
 
@@ -415,7 +485,8 @@ def dWeight : Disp → Nat
 
 /-- a measure that every internal step and every task end decreases -/
 def mu (s : St) : Nat :=
-  (s.goers.map gWeight).sum + 8 * s.queue.length + (s.workers.map wWeight).sum + dWeight s.disp
+  (s.goers.map gWeight).sum + 8 * s.queue.length + (s.workers.map wWeight).sum + dWeight s.disp +
+    (s.callers.map fun _ => 1).sum
 
 theorem sum_map_set {α : Type} (f : α → Nat) : ∀ (l : List α) (i : Nat) (x y : α), l[i]? = some x →
     ((l.set i y).map f).sum + f x = (l.map f).sum + f y := by
@@ -451,6 +522,15 @@ theorem internal_decreases (g : Cfg) (s s' : St) (a : Act) (ha : Act.internal a 
   | go t => simp [Act.internal] at ha
   | stopAdd => simp [Act.internal] at ha
   | stopClose => simp [Act.internal] at ha
+  | call t => simp [Act.internal] at ha
+  | cFinish i p =>
+    simp only [step] at hs
+    split at hs
+    · rename_i t hc
+      cases hs
+      have := sum_map_eraseIdx (fun _ : Nat => 1) s.callers i _ hc
+      simp [mu] at this ⊢; omega
+    · cases hs
   | goUndo i =>
     simp only [step] at hs
     split at hs
@@ -576,27 +656,28 @@ theorem internal_decreases (g : Cfg) (s s' : St) (a : Act) (ha : Act.internal a 
 
 theorem completes_aux (g : Cfg) : ∀ (n : Nat) (s : St), SInv g s → mu s ≤ n →
     ∃ bs, (∀ b ∈ bs, Act.internal b = true) ∧ owedTasks (run g s bs) = [] ∧ runningTasks (run g s bs) = [] ∧
-      (run g s bs).handed = s.handed ∧ (run g s bs).closed = s.closed := by
+      (run g s bs).handed = s.handed ∧ (run g s bs).closed = s.closed ∧ (run g s bs).callers = [] := by
   intro n
   induction n with
   | zero =>
     intro s hS hm
-    by_cases hw : owedTasks s ≠ [] ∨ runningTasks s ≠ []
+    by_cases hw : owedTasks s ≠ [] ∨ runningTasks s ≠ [] ∨ s.callers ≠ []
     · obtain ⟨a, ha, hen⟩ := no_stuck g s hS hw
       obtain ⟨s1, hs1⟩ := Option.isSome_iff_exists.mp hen
       have := (internal_decreases g s s1 a ha hs1).1
       omega
     · have hp : owedTasks s = [] := Classical.byContradiction fun h => hw (.inl h)
-      have hr : runningTasks s = [] := Classical.byContradiction fun h => hw (.inr h)
-      exact ⟨[], by simp, hp, hr, rfl, rfl⟩
+      have hr : runningTasks s = [] := Classical.byContradiction fun h => hw (.inr (.inl h))
+      have hc : s.callers = [] := Classical.byContradiction fun h => hw (.inr (.inr h))
+      exact ⟨[], by simp, hp, hr, rfl, rfl, hc⟩
   | succ n ih =>
     intro s hS hm
-    by_cases hw : owedTasks s ≠ [] ∨ runningTasks s ≠ []
+    by_cases hw : owedTasks s ≠ [] ∨ runningTasks s ≠ [] ∨ s.callers ≠ []
     · obtain ⟨a, ha, hen⟩ := no_stuck g s hS hw
       obtain ⟨s1, hs1⟩ := Option.isSome_iff_exists.mp hen
       obtain ⟨hlt, hh, _, hcl⟩ := internal_decreases g s s1 a ha hs1
-      obtain ⟨bs, h1, h2, h3, h4, h5⟩ := ih s1 (sinv_step g s s1 a hS hs1) (by omega)
-      refine ⟨a :: bs, ?_, ?_, ?_, ?_, ?_⟩
+      obtain ⟨bs, h1, h2, h3, h4, h5, h6⟩ := ih s1 (sinv_step g s s1 a hS hs1) (by omega)
+      refine ⟨a :: bs, ?_, ?_, ?_, ?_, ?_, ?_⟩
       · intro b hb
         rcases List.mem_cons.mp hb with hb | hb
         · rw [hb]; exact ha
@@ -606,9 +687,11 @@ theorem completes_aux (g : Cfg) : ∀ (n : Nat) (s : St), SInv g s → mu s ≤ 
       · exact h3
       · rw [h4, hh]
       · rw [h5, hcl]
+      · exact h6
     · have hp : owedTasks s = [] := Classical.byContradiction fun h => hw (.inl h)
-      have hr : runningTasks s = [] := Classical.byContradiction fun h => hw (.inr h)
-      exact ⟨[], by simp, hp, hr, rfl, rfl⟩
+      have hr : runningTasks s = [] := Classical.byContradiction fun h => hw (.inr (.inl h))
+      have hc : s.callers = [] := Classical.byContradiction fun h => hw (.inr (.inr h))
+      exact ⟨[], by simp, hp, hr, rfl, rfl, hc⟩
 
 theorem run_append (g : Cfg) (as bs : List Act) : ∀ s0, run g (run g s0 as) bs = run g s0 (as ++ bs) := by
   induction as with
@@ -769,6 +852,8 @@ theorem linv_step (g : Cfg) (hnd : g.nodrain = false) (s s' : St) (a : Act) (hS 
     · cases hs
   | dUndo => simp only [step] at hs; split at hs <;> first | (cases hs; exact ⟨h1, h2, h3, by simp⟩) | cases hs
   | dFinish p => simp only [step] at hs; split at hs <;> first | (cases hs; exact ⟨h1, h2, h3, by simp⟩) | cases hs
+  | call t => simp only [step] at hs; cases hs; exact ⟨h1, h2, h3, h4⟩
+  | cFinish i p => simp only [step] at hs; split at hs <;> first | (cases hs; exact ⟨h1, h2, h3, h4⟩) | cases hs
   | stopAdd =>
     simp only [step] at hs
     split at hs
@@ -824,11 +909,11 @@ theorem c19_lost_only_racing_stop (g : Cfg) (hnd : g.nodrain = false) (as : List
 theorem c19_completes (g : Cfg) (hnd : g.nodrain = false) (as : List Act) :
     ∃ bs, (∀ b ∈ bs, Act.internal b = true) ∧
       let s' := run g (run g init as) bs
-      owedTasks s' = [] ∧ runningTasks s' = [] ∧ s'.handed = (run g init as).handed ∧
+      owedTasks s' = [] ∧ runningTasks s' = [] ∧ s'.callers = [] ∧ s'.handed = (run g init as).handed ∧
       (s'.done ++ s'.dropped ++ stranded s').Perm (run g init as).handed ∧
       (∀ t ∈ (run g init as).handed, t ∉ s'.inflight → t ∈ s'.done) := by
   have hS := sinv_run g as init (sinv_init g)
-  obtain ⟨bs, h1, h2, h3, h4, _⟩ := completes_aux g (mu (run g init as)) (run g init as) hS (Nat.le_refl _)
+  obtain ⟨bs, h1, h2, h3, h4, _, h6⟩ := completes_aux g (mu (run g init as)) (run g init as) hS (Nat.le_refl _)
   have hrun := run_append g as bs init
   have hcons := c19_conservation g (as ++ bs)
   have hlost := c19_lost_only_racing_stop g hnd (as ++ bs)
@@ -837,7 +922,7 @@ theorem c19_completes (g : Cfg) (hnd : g.nodrain = false) (as : List Act) :
       stranded (run g (run g init as) bs)).Perm (run g init as).handed := by
     rw [← h4]
     refine List.Perm.trans ?_ hcons
-    generalize run g (run g init as) bs = s' at h2 h3
+    generalize run g (run g init as) bs = s' at h2 h3 h6
     simp only [owedTasks, List.append_eq_nil_iff] at h2
     simp only [runningTasks, List.append_eq_nil_iff] at h3
     obtain ⟨⟨hg, hdp⟩, hq⟩ := h2
@@ -849,11 +934,11 @@ theorem c19_completes (g : Cfg) (hnd : g.nodrain = false) (as : List Act) :
       split at hq
       · rename_i he; simp [he]
       · rename_i he; simp [he, hq]
-    simp only [allTasks, hg, hw, hdt, List.nil_append, List.append_nil, hqs]
+    simp only [allTasks, hg, hw, hdt, h6, List.flatMap_nil, List.nil_append, List.append_nil, hqs]
     -- stranded ++ done ++ dropped  ~  done ++ dropped ++ stranded
     exact (List.perm_append_comm (l₁ := stranded s') (l₂ := s'.done ++ s'.dropped)).symm.trans
       (by simp [List.append_assoc])
-  refine ⟨bs, h1, h2, h3, h4, hperm, ?_⟩
+  refine ⟨bs, h1, h2, h3, h6, h4, hperm, ?_⟩
   intro t ht hni
   have hm : t ∈ (run g (run g init as) bs).done ++ (run g (run g init as) bs).dropped ++
       stranded (run g (run g init as) bs) := hperm.mem_iff.mpr ht
@@ -933,6 +1018,8 @@ theorem not_inflight_step (g : Cfg) (t : Nat) (s s' : St) (a : Act) (hne : a ≠
     · cases hs
   | dUndo => simp only [step] at hs; split at hs <;> first | (cases hs; exact ⟨hg, hi⟩) | cases hs
   | dFinish p => simp only [step] at hs; split at hs <;> first | (cases hs; exact ⟨hg, hi⟩) | cases hs
+  | call t' => simp only [step] at hs; cases hs; exact ⟨hg, hi⟩
+  | cFinish i p => simp only [step] at hs; split at hs <;> first | (cases hs; exact ⟨hg, hi⟩) | cases hs
   | stopAdd =>
     simp only [step] at hs
     split at hs
@@ -966,6 +1053,9 @@ theorem handed_mono_step (g : Cfg) (s s' : St) (a : Act) (hs : step g s a = some
     | go t' =>
       simp only [step] at hs
       split at hs <;> (cases hs; exact List.mem_append.mpr (.inl ht))
+    | call t' =>
+      simp only [step] at hs
+      cases hs; exact List.mem_append.mpr (.inl ht)
     | stopAdd =>
       simp only [step] at hs
       split at hs
@@ -1000,7 +1090,7 @@ theorem c19_handed_before_stop_runs (g : Cfg) (hnd : g.nodrain = false) (as cs :
   have hL := linv_run g hnd as init (sinv_init g) linv_init
   have hi0 : t ∉ (run g init as).inflight := by rw [(hL.pre hc).2.2]; simp
   rw [run_append]
-  obtain ⟨bs, h1, _, _, _, _, h6⟩ := c19_completes g hnd (as ++ cs)
+  obtain ⟨bs, h1, _, _, _, _, _, h6⟩ := c19_completes g hnd (as ++ cs)
   refine ⟨bs, h1, h6 t ?_ ?_⟩
   · rw [← run_append]; exact handed_mono_run g t cs _ ht
   · have hbs : ∀ a ∈ cs ++ bs, a ≠ .go t := by
@@ -1019,7 +1109,7 @@ theorem c19_completes_without_stop (g : Cfg) (hnd : g.nodrain = false) (as : Lis
       let s' := run g (run g init as) bs
       pendingTasks s' = [] ∧ runningTasks s' = [] ∧ s'.dropped = [] ∧ s'.done.Perm (run g init as).handed := by
   have hS := sinv_run g as init (sinv_init g)
-  obtain ⟨bs, h1, h2, h3, h4, h5⟩ := completes_aux g (mu (run g init as)) (run g init as) hS (Nat.le_refl _)
+  obtain ⟨bs, h1, h2, h3, h4, h5, h6⟩ := completes_aux g (mu (run g init as)) (run g init as) hS (Nat.le_refl _)
   have hS' := sinv_run g bs (run g init as) hS
   have hcl : (run g (run g init as) bs).closed = false := by
     rw [h5]
@@ -1043,7 +1133,7 @@ theorem c19_completes_without_stop (g : Cfg) (hnd : g.nodrain = false) (as : Lis
   show pendingTasks (run g (run g init as) bs) = [] ∧ runningTasks (run g (run g init as) bs) = [] ∧
     (run g (run g init as) bs).dropped = [] ∧
     (run g (run g init as) bs).done.Perm (run g (run g init as) bs).handed
-  generalize run g (run g init as) bs = s' at h2 h3 hne hdrop hcons
+  generalize run g (run g init as) bs = s' at h2 h3 h6 hne hdrop hcons
   simp only [owedTasks, hne, if_false, List.append_eq_nil_iff] at h2
   obtain ⟨⟨hg, hdp⟩, hq⟩ := h2
   refine ⟨by simp [pendingTasks, hg, hq, hdp], h3, hdrop, ?_⟩
@@ -1051,7 +1141,7 @@ theorem c19_completes_without_stop (g : Cfg) (hnd : g.nodrain = false) (as : Lis
   obtain ⟨hw, hdr⟩ := h3
   have hdt : dTask s'.disp = [] := by
     revert hdp hdr; cases s'.disp <;> simp [dTask, dPend, dRun]
-  simpa [allTasks, hg, hq, hw, hdt, hdrop] using hcons
+  simpa [allTasks, hg, hq, hw, hdt, hdrop, h6] using hcons
 
 /-! ### the defect that was repaired (pinned tree: `leak = true`) -/
 
